@@ -1,4 +1,4 @@
-From V Require Import Common.Base C11.Str C11.EsbuildResolve C11.NodeSpec C11.SortLemmas C11.Scope C11.ResolveProofs C11.Walk C11.NodeWalkSpec C11.WalkProofs C11.CondsExt C11.WalkCore C11.WalkMain.
+From V Require Import Common.Base C11.Str C11.EsbuildResolve C11.NodeSpec C11.SortLemmas C11.Scope C11.ResolveProofs C11.Walk C11.NodeWalkSpec C11.WalkProofs C11.CondsExt C11.WalkCore C11.WalkMain C11.WalkImport.
 Local Open Scope string_scope.
 (* non-vacuity: concrete non-trivial values meeting each theorem's hypotheses *)
 Example name_ex : parse_package_name (s_ "@scope/pkg/lib/a.js") = Some (s_ "@scope/pkg", s_ "./lib/a.js").
@@ -149,4 +149,10 @@ Example ex_fs_import :
   /\ import_resolve (fun _ => false) ex_fs [] (p_ ["src"]) (s_ "./util.js") = NFile (p_ ["src"; "util.js"])
   /\ import_resolve (fun _ => false) ex_fs [] (p_ ["src"]) (s_ "dep/features/a")
      = NFile (p_ ["node_modules"; "dep"; "src"; "features"; "a.js"]).
+Proof. repeat split; vm_compute; reflexivity. Qed.
+
+(* import_package_resolve_partial: the extra hypotheses hold on the example tree and fail on the D14 witness *)
+Example ex_fs_import_hyps :
+  no_nested_nmb ex_fs = true /\ no_module_fileb ex_fs (s_ "dep/features/a") = true
+  /\ no_module_fileb w_shadow_fs (s_ "dep") = false /\ no_nested_nmb w_shadow_fs = true.
 Proof. repeat split; vm_compute; reflexivity. Qed.
